@@ -271,7 +271,7 @@ func (r *Recorder) Outcome(name string) {
 // Sample keeps up to 6 sample cases, written into the evidence.
 func (r *Recorder) Sample(v any) {
 	r.mu.Lock()
-	if len(r.res.Samples) < 6 {
+	if len(r.res.Samples) < 24 {
 		r.res.Samples = append(r.res.Samples, v)
 	}
 	r.mu.Unlock()
